@@ -52,6 +52,10 @@ func (g *customGen[V]) maybeValue(t *T) (V, bool) {
 			if _, ok := r.(invalidData); !ok {
 				panic(r)
 			}
+			// The bits of a rejected attempt are pruned from the recorded test case, so it
+			// can not leave a non-fatal failure behind for later: finish it and fail now.
+			t.cleanup()
+			t.failOnError()
 		}
 	}()
 
